@@ -15,6 +15,7 @@ func main() {
 	}
 	switch os.Args[1] {
 	case "run":
+		processPrelude()
 		in := bufio.NewReaderSize(os.Stdin, 1<<20)
 		out := bufio.NewWriterSize(os.Stdout, 1<<20)
 		defer out.Flush()
